@@ -27,11 +27,18 @@ type goroutine struct {
 	resume   chan resumeMsg
 	fr       *frame
 	isMain   bool
+	depth    int
+	// sched mode
+	pending *schedOp
+	result  *schedResult
+	parked  bool
+	vc      vclock
 }
 
 type chanItem struct {
 	v     Value
 	taken *bool
+	vc    vclock
 }
 
 func (m *Machine) spawn(fn Value, args []Value) {
@@ -100,6 +107,24 @@ func (m *Machine) runGoroutine(g *goroutine) {
 			return
 		}
 		// finished normally: hand the baton on
+		if m.schedOn() {
+			g.pending = nil
+			func() {
+				defer func() {
+					if r := recover(); r != nil {
+						if pe, ok := r.(pathEnd); ok {
+							m.path.pendingEnd = &pe
+						} else {
+							pe := pathEnd{OutInconclusive, fmt.Sprintf("engine error in scheduler: %v", r)}
+							m.path.pendingEnd = &pe
+						}
+						m.wakeMainAbort()
+					}
+				}()
+				m.schedGoroutineDone(g)
+			}()
+			return
+		}
 		next := m.pickNext(g)
 		if next == nil {
 			pe := pathEnd{OutBlocked, "all goroutines are asleep"}
